@@ -40,6 +40,10 @@ def build_jobs(chk, q):
         ss = [{"pos": pool[(rep * 300 + k) % len(pool)], "depth": 1} for k in range(300)]
         ss.append({"pos": roots[0], "depth": 4})
         jobs.append({"hash": 1, "tag": "many-searches", "searches": ss})
+    # E: positions whose first iteration outlasts the limit (quiescence explosion): the fall-back move path
+    for i, p in enumerate(searches.explosive_positions()):
+        lim = [{"movetime": 0}, {"movetime": 1}, {"wtime": 1, "btime": 1}, {"depth": 1}][i % 4]
+        jobs.append({"hash": 1, "tag": "explosive", "searches": [dict(pos=p, **lim), {"pos": roots[i % len(roots)], "depth": 3}]})
     # D: scores that jump through the aspiration window (mate found at depth >= 5)
     for f in searches.EXTRA_FENS[:4]:
         jobs.append({"hash": 1, "tag": "score-jump", "searches": [{"pos": searches.fen2pos(f), "depth": d} for d in ((6, 7) if q else (6, 7, 9))]})
